@@ -16,9 +16,9 @@ import CpModel.UrlEncBind
     rec  <hex>                 recode_path_qs on the query       → `T <text>`
     att  <declared|N> <configured|N>   attempt_charsets          → `A <charsets>`
 
-    reqx <uri> <qsenc> <path-hex> <qs-hex> <pb 0|1> <len 0|1> <procs> <ctype> <attempts> <body-hex> <fields>
+    reqx <uri> <qsenc> <path-hex> <qs-hex> <pb 0|1> <len 0|1> <procs> <ctype> <declared|N> <configured|N> <body-hex> <fields>
          whole request, every body dimension (`handleX`)                 → `H <params>` | `S <code>`
-    resp <sig> <nargs> <the eleven reqx fields>   `respond`           → `H <params>` | `S <code>`
+    resp <sig> <nargs> <the twelve reqx fields>   `respond`           → `H <params>` | `S <code>`
     bind <sig> <nargs> <kwargs>   PageHandler.__call__ / test_callable_spec
                                                     → `ok=<0|1> spec=<N|code> dec=<C|code>`
     sel  <procs> <ctype>       Entity.process processor choice     → `u` | `f` | `o` | `p` | `n`
@@ -26,9 +26,10 @@ import CpModel.UrlEncBind
     pparts <old 0|1> <fields>  multipart parameter assembly       → `P <params>` | `E 400`
     tfb  <ctype> <attempts>    RequestBody.__init__ text/* rule    → `A <charsets>`
     patt <declared|N>          Part.attempt_charsets               → `A <charsets>`
+    ratt <ctype> <declared|N> <configured|N>   request.body.attempt_charsets → `A <charsets>`
 
   procs: `D` (the shipped table) | `~` (empty) | `<key-text>:<u|f|o|p>` joined by `,`.
-  fields: `~` | `<name-text|N>:<file 0|1>:<value-hex>:<charsets>` joined by `|`.
+  fields: `~` | `<name-text|N>:<file 0|1>:<value-hex>:<declared charset|N>` joined by `|`.
   sig: `<selfname-text|N>;<self posonly 0|1>;<params>;<posOnly>;<defaults>;<varargs 0|1>;<kwonly>;<varkw 0|1>`,
        params = texts joined by `,` (`~` = none), kwonly = `<name-text>:<has default 0|1>` joined by `,` (`~` = none).
   kwargs: `~` | `<key-text>:<from body 0|1>` joined by `,`.
@@ -96,8 +97,8 @@ def parseField (e : String) : Option Field :=
     let name ← if n == "N" then some none else (Proto.untext? n).map some
     let file ← bool? f
     let value ← Proto.unhex? v
-    let attempts ← parseCsList a
-    pure { name := name, file := file, value := value, attempts := attempts }
+    let d ← if a == "N" then some none else (parseCs a).map some
+    pure { name := name, file := file, value := value, attempts := partAttempts d }
   | _ => none
 
 def parseFields (s : String) : Option (List Field) :=
@@ -129,7 +130,12 @@ def parseSig (s : String) : Option Sig :=
     pure { self? := self?, params := params, posOnly := po, defaults := nd, varargs := va, kwonly := ko, varkw := vk }
   | _ => none
 
-def parseReqX (uri enc path qs pb len procs ct att body flds : String) : Option ReqX := do
+def optCs? (s : String) : Option (Option Charset) := if s == "N" then some none else (parseCs s).map some
+
+def optCsList? (s : String) : Option (Option (List Charset)) :=
+  if s == "N" then some none else (parseCsList s).map some
+
+def parseReqX (uri enc path qs pb len procs ct decl conf body flds : String) : Option ReqX := do
   let uri ← parseCs uri
   let enc ← parseCs enc
   let path ← Proto.unhex? path
@@ -138,11 +144,12 @@ def parseReqX (uri enc path qs pb len procs ct att body flds : String) : Option 
   let len ← bool? len
   let procs ← parseProcs procs
   let ct ← Proto.untext? ct
-  let att ← parseCsList att
+  let d ← optCs? decl
+  let c ← optCsList? conf
   let body ← Proto.unhex? body
   let flds ← parseFields flds
   pure { path := path, qs := qs, uriEnc := uri, qsEnc := enc, processBody := pb, hasLength := len,
-         processors := procs, ctype := ct, attempts := att, body := body, fields := flds }
+         processors := procs, ctype := ct, attempts := requestAttempts ct d c, body := body, fields := flds }
 
 def showOutcome : Outcome → String
   | .handler kw => "H " ++ showParams kw
@@ -150,12 +157,12 @@ def showOutcome : Outcome → String
 
 def step (line : String) : String :=
   match Proto.fields line with
-  | ["reqx", uri, enc, path, qs, pb, len, procs, ct, att, body, flds] =>
-    match parseReqX uri enc path qs pb len procs ct att body flds with
+  | ["reqx", uri, enc, path, qs, pb, len, procs, ct, decl, conf, body, flds] =>
+    match parseReqX uri enc path qs pb len procs ct decl conf body flds with
     | some r => showOutcome (handleX r)
     | none => "bad-op"
-  | ["resp", sig, nargs, uri, enc, path, qs, pb, len, procs, ct, att, body, flds] =>
-    match parseSig sig, nargs.toNat?, parseReqX uri enc path qs pb len procs ct att body flds with
+  | ["resp", sig, nargs, uri, enc, path, qs, pb, len, procs, ct, decl, conf, body, flds] =>
+    match parseSig sig, nargs.toNat?, parseReqX uri enc path qs pb len procs ct decl conf body flds with
     | some s, some n, some r => showOutcome (respond r s n)
     | _, _, _ => "bad-op"
   | ["bind", sig, nargs, kwargs] =>
@@ -189,6 +196,10 @@ def step (line : String) : String :=
     match Proto.untext? ct, parseCsList att with
     | some c, some a => "A " ++ ",".intercalate ((textFallback c a).map showCs)
     | _, _ => "bad-op"
+  | ["ratt", ct, d, c] =>
+    match Proto.untext? ct, optCs? d, optCsList? c with
+    | some t, some dd, some cc => "A " ++ ",".intercalate ((requestAttempts t dd cc).map showCs)
+    | _, _, _ => "bad-op"
   | ["patt", d] =>
     let d? : Option (Option Charset) := if d == "N" then some none else (parseCs d).map some
     match d? with
